@@ -22,7 +22,7 @@ MANIFEST = {
             'The tail of a short write is flushed by later sends, as every caller in the package sends periodically.',
 }
 LEVEL = 'exploration'
-RULE = ('case = (message sizes, recv buffer size, send plan, pipe capacity, recv fragmentation plan, event order, optional corruption of one frame, optional second life: the receiving connection object dies in the middle of a frame, is connected again and must deliver a second message list exactly). '
+RULE = ('case = (message sizes, or (1 case in 60) a bulk backlog of 70 KB - 2 MiB incompressible messages against buffers of 64 KiB - 2 MiB that fill at powers of two, recv buffer size, send plan, pipe capacity, recv fragmentation plan, event order, optional corruption of one frame, optional second life: the receiving connection object dies in the middle of a frame, is connected again and must deliver a second message list exactly). '
         'non-trivial = >=1 message was split across >=2 reads AND >=1 socket.send was short or refused; distinct = distinct case digests')
 ASSUMPTIONS = ['fake socket semantics: send accepts a prefix or raises EAGAIN; recv returns available bytes up to the requested size or raises EAGAIN; EOF = empty read',
                'no timeouts (clock frozen) in this property']
@@ -151,8 +151,8 @@ def strategy(tier):
             'recv_plan': st.lists(st.sampled_from([1, 2, 3, 5, 17, 100, 1 << 20]), max_size=6)})),
         # bulk: a backlog of megabytes (snapshot pieces, big entries, a slow peer) against socket buffers of 64 KiB .. 2 MiB that fill up
         # at arbitrary points, also exactly at powers of two; replaces sizes/plans of the case, no corruption
-        'bulk': st.one_of(*([st.none()] * 23 + [st.fixed_dictionaries({
-            'sizes': st.lists(st.sampled_from([70000, 1 << 17, 1 << 18, 1 << 18, 1 << 19, (1 << 20) - 4096, 1 << 20, (1 << 20) + 4096, 1 << 21]), min_size=1, max_size=6),
+        'bulk': st.one_of(*([st.none()] * 59 + [st.fixed_dictionaries({
+            'sizes': st.lists(st.sampled_from([70000, 1 << 17, 1 << 18, 1 << 18, 1 << 19, (1 << 20) - 4096, 1 << 20, (1 << 20) + 4096]), min_size=1, max_size=4),
             'send_plan': st.lists(st.sampled_from([0, 0, 1 << 16, 1 << 19, 1 << 20, 1 << 20, (1 << 20) + 1, 1 << 21, 1 << 30]), max_size=6),
             'capacity': st.sampled_from([1 << 16, 1 << 17, 1 << 20, 1 << 20, 3 << 19, 1 << 21, 1 << 30]),
             'events': st.lists(st.sampled_from([0, 0, 0, 1, 1, 2, 3]), max_size=20)})])),
